@@ -2,6 +2,8 @@
 // Case: kind cap ilen ini... ops...   (see coq/C17/Model.v decode_ops, props/C17.py)
 //   kind 0 StringBuilder(), 1 StringBuilder(std::string&), 2 (buf, cap, Fixed), 3 (buf, cap, Dynamic)
 //   op 9 m off n: append a slice of the builder's own current text (pointer from c_str() / toSpan() / the caller's string)
+//   op 10 m bits n text..: append(double) [m = 0], append(float) [1], xconvert(std::string&, double) [2], toString(double) [3]
+//                  of the double with the 64-bit pattern `bits`; text (its "%g" rendering) is for the model only
 // After the constructor and after every operation one record is printed:
 //   exc size bytes[0..size) c_str()[size] maxSize(-1 = unbounded) errno==ERANGE canaries-intact
 // Every case is run TWICE on fresh builders:
@@ -17,6 +19,9 @@
 #include "common.h"
 #include <climits>
 #include <cerrno>
+#include <cmath>
+#include <cfloat>
+#include <cstring>
 #include <potassco/string_convert.h>
 using Potassco::StringBuilder;
 static const size_t GUARD = 32;
@@ -127,6 +132,17 @@ static void runCase(Case& c, Obs& o, bool stale) {
 					else if (m == 1) { Potassco::Span<char> sp = b.toSpan(); b.append(sp.first + o2, n2); }
 					else if (m == 3 && kind == 1) { b.append(ext.data() + o2, n2); }                           // the caller's view of its string
 					else             { b.append(b.c_str() + o2, n2); }
+				}
+				else if (op == 10) {
+					// append(double) and what forwards to it: the value is the double whose 64-bit pattern is `bits`; the "%g" text
+					// that follows in the case is the MODEL's input (it has no floating point) and is skipped here
+					ll m = c.next(); long long bits = c.next();
+					size_t tl = (size_t)c.next(); (void)c.bytes(tl);
+					double d; std::memcpy(&d, &bits, sizeof d);
+					if      (m == 1 && (d != d || std::fabs(d) <= FLT_MAX || std::isinf(d))) { b.append(static_cast<float>(d)); }
+					else if (m == 2) { std::string t("#"); Potassco::xconvert(t, d); b.append(t.data() + 1, t.size() - 1); }
+					else if (m == 3) { std::string t = Potassco::toString(d); b.append(t.data(), t.size()); }
+					else             { b.append(d); }
 				}
 				else break;
 				er = errno == ERANGE;
